@@ -221,6 +221,8 @@ impl GenCfg {
             "C11" => {
                 set(&mut w, K::ObsLookup, 10);
                 set(&mut w, K::Reserve, 3);
+                set(&mut w, K::CycleSlot, 2);
+                p_boundary = *rng.pick(&[0, 0, 0, 0, 0, 20]);
                 dense = rng.chance(1, 3);
                 payload = *rng.pick(&["tracked", "u8", "wide", "string", "unit", "big", "opt"]);
             }
